@@ -1615,24 +1615,37 @@ def rule_rewind_changes_state(prog, fixture=False):
                 return None
             ids = {id(x): x for x in rewinds}
 
+            condnode = lp["c"][lp["parts"]["cond"]]
+            cond_ids = {id(x) for x in walk(condnode)}
+
             def step(st, x):
+                # st = (state changed in this pass?, pending rewind or None)
+                changed, pend = st
+                if id(x) in cond_ids:
+                    return {(False, None)}          # a new pass begins
                 if id(x) in ids:
-                    return {("pending", region_state2(x), fn.loc(x))}
-                if st != "ok" and x.get("k") == "BinaryOperator" and x.get("op") == "=" and (strip_all(x["c"][0]) or {}).get("d") == sd:
+                    return {(changed, None if changed else (region_state2(x), fn.loc(x)))}
+                if x.get("k") == "BinaryOperator" and x.get("op") == "=" and (strip_all(x["c"][0]) or {}).get("d") == sd:
                     v = folded(x["c"][1])
-                    if v is not None and (st[1] is None or v != st[1]):
-                        return {"ok"}
+                    here = region_state2(x)
+                    if v is not None and (here is None or v != here) and (pend is None or pend[0] is None or v != pend[0]):
+                        return {(True, None)}
                 # (a later scan from the rewound position does not count as progress: it finds the same mark)
                 return {st}
-            inn, at = flow.may_states(fn, {"ok"}, step)
-            condnode = lp["c"][lp["parts"]["cond"]]
-            sts = at(condnode)
+            inn, at = flow.may_states(fn, {(False, None)}, step)
+            sts = None
+            wh = fn.where()
+            for x in walk(condnode):
+                if x["i"] in wh:
+                    s1 = at(x)
+                    if s1 is not None:
+                        sts = (sts or set()) | s1
             key = "%s::%s::rewind of %s" % (fn.relfile(), fn.qn, cur.get("n"))
             if sts is None:
                 r.undecided.append("%s: loop condition not in the CFG" % fn.loc(lp))
                 continue
-            bad = sorted(x for x in sts if x != "ok")
-            r.add(key, bad[0][2] if bad else fn.loc(rewinds[0]), not bad,
+            bad = sorted(x[1] for x in sts if x[1] is not None)
+            r.add(key, bad[0][1] if bad else fn.loc(rewinds[0]), not bad,
                   "%d rewind(s), each followed by a state change before the next pass" % len(rewinds) if not bad else
                   "`%s` is set back to a saved position and the next pass starts in the same state (`%s` unchanged): the same "
                   "mark is found again and the loop never ends on such a track" % (cur.get("n"), sname))
@@ -1721,6 +1734,16 @@ def rule_bitstream_access(prog, fixture=False):
                 continue
             key = "%s::%s::getbit" % (f.relfile(), f.qn)
             gd = guards.setdefault(f.uid, Guards(f))
+            a = call_args(n)
+            raw_bounded = False
+            for l, rel, rr in (gd.cmps(n) or []):
+                ls = strip_all(l)
+                if rel == "<" and (strip_all(rr) or {}).get("n") == "raw_bit_size_" and ls is not None and is_call(ls) and \
+                        notpl(ls.get("q") or "").endswith("raw_pos") and a and call_args(ls) and same_expr(call_args(ls)[0], a[0]):
+                    raw_bounded = True
+            if raw_bounded:
+                r.add(key, f.loc(n), True, "raw_pos(index) < raw_bit_size_")
+                continue
             if witnessed(f, n, gd):
                 r.add(key, f.loc(n), True, "after a successful scan in the same function")
                 continue
